@@ -132,6 +132,8 @@ def run(rep, tier):
         run_strings(rep, prog, new, into, ser_any[0])
     with rep.part('integer map keys'):
         run_key_coercion(rep, prog, new)
+    with rep.part('newtype structs'):
+        run_newtype(rep, prog, new, into)
     # twins
     ops = TWIN_OPS
     res = replay(ops)
@@ -205,6 +207,91 @@ def run_key_coercion(rep, prog, new):
     for fail in battery_keys():
         rep.violation('C13:native-twin:key', f'native twin: {fail}', {'native': fail})
     rep.replayed += len(KEY_OPS)
+
+
+# ---- serde-derive's contract for a newtype struct `struct N(i32)` (non-transparent): Serialize = serialize_newtype_struct("N", &self.0);
+#      Deserialize = deserialize_newtype_struct("N", V) where V::visit_newtype_struct(d) = i32::deserialize(d).map(N), V::visit_seq reads one
+#      element, every other visit_* is "invalid type"
+def T_nt_serialize(it, ctx, args, st):
+    v = st.deref_all(args[0]) if isinstance(args[0], Ptr) else args[0]
+    S = ctx.gargs[0]
+    yield from it.call_trait(ctx.fr, S, 'serde::Serializer', 'serialize_newtype_struct', [('path', 'i32', ())], [args[1], st.ref(bstr(b'N')), st.ref(v.fields[0])], st)
+
+
+def T_nt_deserialize(it, ctx, args, st):
+    from mirsym.types import ty_str
+    D = ctx.gargs[0]
+    yield from it.call(ctx.fr, f'<{ty_str(D)} as serde::Deserializer>::deserialize_newtype_struct::<NTVisitor>', [args[0], st.ref(bstr(b'N')), Agg('NTVisitor', ())], st)
+
+
+def T_nt_visit(it, ctx, args, st):
+    from mirsym.types import ty_str
+    meth = ctx.callee.method
+    if meth == 'visit_newtype_struct':
+        D = ctx.gargs[0]
+        fr0 = type(ctx.fr)()
+        fr0.fn, fr0.locals, fr0.tenv, fr0.visits, fr0.depth = ctx.fr.fn, ctx.fr.locals, {}, {}, ctx.fr.depth
+        for s2, r in it.call(fr0, f'<i32 as serde::Deserialize>::deserialize::<{ty_str(D)}>', [args[1]], st):
+            if is_abnormal(r):
+                yield s2, r
+                continue
+            okp = it.payload(r, 'Ok')
+            for s3, good in models_std.fork_bool(it, s2, it.variant_of(r, 'Ok')):
+                yield s3, (it.ok(Agg('NT', (okp.fields[0],))) if good else it.err(it.payload(r, 'Err').fields[0]))
+        return
+    yield st, it.err(Agg('conjure_object::any::Error', (de_err('invalid_type', meth),)))
+
+
+def run_newtype(rep, prog, new, into):
+    """a non-transparent newtype struct survives Any::new + deserialize_into (every self-describing format carries it as its content)"""
+    it = mk(prog)
+    it.tmodels[('NT', 'Serialize', 'serialize')] = T_nt_serialize
+    it.tmodels[('NT', 'Deserialize', 'deserialize')] = T_nt_deserialize
+    for m_ in ['visit_bool', 'visit_str', 'visit_string', 'visit_borrowed_str', 'visit_f32', 'visit_f64', 'visit_unit', 'visit_none', 'visit_some', 'visit_bytes', 'visit_byte_buf',
+               'visit_map', 'visit_char', 'visit_newtype_struct', 'visit_enum'] + [f'visit_{s_}{w}' for s_ in 'iu' for w in (8, 16, 32, 64, 128)]:
+        it.tmodels[('NTVisitor', 'Visitor', m_)] = T_nt_visit
+    dec = Decider(rep, it)
+    st = St()
+    n = z3.BitVec('nt', 32)
+    T = ('path', 'NT', ())
+    np_ = 0
+    for s1, r1 in it.run(new, [Agg('NT', (n,))], st, {'T': T}):
+        okp = it.payload(r1, 'Ok') if not is_abnormal(r1) else None
+        if okp is None:
+            rep.structural('C13:newtype:new', f'Any::new(newtype) {r1!r:.120}', {}, battery_newtype)
+            continue
+        for s2, r2 in it.run(into, [okp.fields[0]], s1.fork(), {'T': T}):
+            np_ += 1
+            rep.states += 1
+            if is_abnormal(r2):
+                rep.structural('C13:newtype:into', f'deserialize_into::<newtype> {r2!r:.120}', {}, battery_newtype)
+                continue
+            back = it.payload(r2, 'Ok')
+            bad = it.variant_of(r2, 'Err')
+            if back is not None:
+                bad = z3.Or(bad, back.fields[0].fields[0] != n)
+            m = dec.decide(f'newtype:path{np_}:Any::new(N(v)).deserialize_into::<N>()==N(v)', s2, bad)
+            if m is not None:
+                x = m.eval(n, True).as_long()
+                x = x - (1 << 32) if x >= 1 << 31 else x
+                op = {'op': 'any_newtype', 'n': x}
+                r, r_rel = replay([op])[0], replay([op], 'release')[0]
+                rep.replayed += 1
+                if not r.get('same') and not r_rel.get('same') and r.get('json_reference_ok'):
+                    rep.violation('C13:newtype', f'a serde newtype struct N({x}) does not survive Any::new + deserialize_into (JSON carries it): native {r}', {'op': op, 'native': r})
+                else:
+                    rep.inconc(f'model mismatch C13 newtype {x}: native {r}')
+    if not np_:
+        rep.inconc('vacuity: C13 newtype never reaches deserialize_into')
+    finish_engine(rep, it)
+    for fail in battery_newtype():
+        rep.violation('C13:newtype', f'native twin: {fail}', {'native': fail})
+    rep.replayed += 2
+
+
+def battery_newtype():
+    ops = [{'op': 'any_newtype', 'n': 5}, {'op': 'any_newtype', 'n': -2147483648}]
+    return [f'{o}: {r}' for o, r in zip(ops, replay(ops)) if not r.get('same')]
 
 
 def run_visitor_identity(rep, prog, ser_fn):
